@@ -137,33 +137,40 @@ theorem shared_protocol_sequential :
 
 def idx (e : String) (l : List String) : Nat := l.findIdx (· == e)
 
-/-- evalFunctionCall: the built-in is copied (`c := *gc`, `&c`) before SetName / SetContext, and
-    the copy is what gets called -/
+/-- the call path copies the built-in (an assignment from the dereferenced pointer, then the
+    address of the copy) before SetName / SetContext, and the copy is what gets called.  Traces are
+    inlined through package-local helpers and carry no variable names -/
 theorem fact_call_site_copies :
     let ev := Generated.evalFunctionCallEvents
-    ev.contains "copy:*gc" = true ∧ ev.contains "addr:&c" = true ∧
-    idx "copy:*gc" ev < idx "call:SetName" ev ∧ idx "copy:*gc" ev < idx "call:SetContext" ev ∧
+    ev.contains "copy:*" = true ∧ ev.contains "addr:&" = true ∧
+    idx "copy:*" ev < idx "call:SetName" ev ∧ idx "copy:*" ev < idx "call:SetContext" ev ∧
     idx "call:SetContext" ev < idx "call:Call" ev := by
   decide
 
-/-- the setters are called nowhere else in the evaluator -/
-theorem fact_setters_only_at_call_site :
-    (Generated.evalFunctionApplicationEvents.contains "call:SetContext" = false) ∧
-    (Generated.evalFunctionApplicationEvents.contains "call:SetName" = false) ∧
-    (Generated.transformCallEvents.contains "call:SetContext" = false) := by
+/-- every function of the evaluator that calls a setter directly makes the copy first, and the
+    other entry points reach the setters only through such a function -/
+theorem fact_setters_only_on_copies :
+    Generated.setterSites ≠ [] ∧ Generated.setterSites.all (·.2) = true ∧
+    (let ev := Generated.evalFunctionApplicationEvents
+     ev.contains "call:SetContext" = false ∨ idx "copy:*" ev < idx "call:SetContext" ev) ∧
+    (let ev := Generated.transformCallEvents
+     ev.contains "call:SetContext" = false ∨ idx "copy:*" ev < idx "call:SetContext" ev) := by
   decide
 
-/-- the package-level registry is read (Compile) and written (Register*) only under its mutex -/
+/-- the package-level registry is used only under its mutex: every function that mentions it
+    takes the lock before the first use and releases it, and the ones that write hold the write
+    lock; there is a reader and a writer -/
 theorem fact_registry_under_lock :
-    Generated.registryAccess = [("Compile", ["RLock", "use", "RUnlock"]),
-      ("updateGlobalRegistry", ["Lock", "use", "use", "use", "Unlock"])] := by
+    Generated.registryLocking.all (fun r => r.2.2.1 && r.2.2.2.1 && (!r.2.2.2.2 || r.2.1 == "W")) = true ∧
+    Generated.registryLocking.any (fun r => r.2.2.2.2) = true ∧
+    Generated.registryLocking.any (fun r => !r.2.2.2.2) = true := by
   decide
 
 /-- each Eval builds a new environment (and new time callables) instead of sharing one -/
 theorem fact_env_per_eval :
-    Generated.exprEvalEvents.contains "call:newEnv" = true ∧
-    Generated.timeCallableEvents.headD "" =
-      "Expr.newEnv:call:timeCallables,call:Now,call:newEnvironment,call:len,call:len,call:bind,call:bindAll,call:bindAll" := by
+    Generated.exprEvalEvents.contains "call:newEnvironment" = true ∧
+    Generated.newEnvParents = ["baseEnv"] ∧
+    (Generated.newEnvEvents.filter (· == "call:Now")).length = 1 := by
   decide
 
 /-! ### non-vacuity -/
